@@ -17,6 +17,8 @@ from ..evidence import seed
 from .c12 import EXTRA
 
 SHAPES = {
+    # characters that are special to logging / formatting layers: the text of a document must never be used as a format
+    "format-characters": b"# Cost: $5 {0} %s\n\n$ pip install x gives 100%% of {name} and %d or %(k)s \\$ {} $$ ${var}\n\n- item $1\n\n> `$code` <b>$</b>\n",
     "no-final-newline": b"# T\n\nlast line without newline   ",
     "crlf": b"# T\r\n\r\nSome text.   \r\n\r\n- a\r\n- b\r\n",
     "crlf-setext": b"Title\r\n=====\r\n\r\ntext   \r\n",
@@ -154,10 +156,11 @@ def run(pid, tier):
     files3 = [("a1.md", appscen.CONTENT["fixable"]), ("a2.md", appscen.CONTENT["perrl"]), ("a3.md", appscen.CONTENT["fix2"]), ("a4.md", appscen.CONTENT["trig"])]
     djobs = []
     dsel = docs[: (8 if tier == "quick" else 60)]
+    always = [d for d in docs if d[0].endswith("format-characters")]
     for mode in ("scan", "fix"):
         for diag in DIAG:
             djobs.append(("multi-with-failing-file", files3, mode, diag, True))
-            for name, data in dsel[:: (4 if tier == "quick" else 1)]:
+            for name, data in always + [d for d in dsel[:: (4 if tier == "quick" else 1)] if d not in always]:
                 djobs.append((name, [("doc.md", data)], mode, diag, False))
     dres = impl.pmap(_diag, djobs, procs=16)
     dlogs = {}
